@@ -47,4 +47,39 @@ IsDigits(s) == Len(s) > 0 /\ Chars(s) \subseteq Digits
 RECURSIVE StringsOfLen(_, _)
 StringsOfLen(A, n) == IF n = 0 THEN {""} ELSE {a \o t : a \in A, t \in StringsOfLen(A, n - 1)}
 StringsUpTo(A, n) == UNION {StringsOfLen(A, k) : k \in 0..n}
+
+(* ---- additions by the C08/C09 builder (ordering, Python strip, integers, paths) ---- *)
+\* printable ASCII in code-point order; Rank = position (0 for anything else, e.g. TAB)
+Ascii == " !\"#$%&'()*+,-./0123456789:;<=>?@ABCDEFGHIJKLMNOPQRSTUVWXYZ[\\]^_`abcdefghijklmnopqrstuvwxyz{|}~"
+Rank(c) == Find(Ascii, c)
+RECURSIVE StrLt(_, _)
+StrLt(s, t) ==                    \* Python s < t for strings over printable ASCII
+    IF Len(t) = 0 THEN FALSE
+    ELSE IF Len(s) = 0 THEN TRUE
+    ELSE IF Ch(s, 1) = Ch(t, 1) THEN StrLt(Tail1(s), Tail1(t))
+    ELSE Rank(Ch(s, 1)) < Rank(Ch(t, 1))
+StrCmp(s, t) == IF s = t THEN 0 ELSE IF StrLt(s, t) THEN 0 - 1 ELSE 1
+
+PyWS == {" ", "\t", "\n", "\r", "\f"}       \* the members of Python's str.strip() class used here
+Strip(s) == StripSet(s, PyWS)
+From(s, i) == SubSeq(s, i, Len(s))          \* Python s[i-1:]
+DropLast(s) == SubSeq(s, 1, Len(s) - 1)
+
+DigitVal(c) == Find("0123456789", c) - 1
+RECURSIVE ParseNatAcc(_, _)
+ParseNatAcc(s, acc) == IF Len(s) = 0 THEN acc ELSE ParseNatAcc(Tail1(s), 10 * acc + DigitVal(Ch(s, 1)))
+ParseNat(s) == ParseNatAcc(s, 0)
+IsInt(s) == IsDigits(s) \/ (Len(s) > 1 /\ Ch(s, 1) \in {"-", "+"} /\ IsDigits(Tail1(s)))
+ParseInt(s) == IF Ch(s, 1) = "-" THEN 0 - ParseNat(Tail1(s))
+               ELSE IF Ch(s, 1) = "+" THEN ParseNat(Tail1(s)) ELSE ParseNat(s)
+
+\* os.path.normpath for absolute paths starting with exactly one slash
+RECURSIVE NormParts(_, _)
+NormParts(parts, acc) ==
+    IF Len(parts) = 0 THEN acc
+    ELSE LET p == parts[1] IN
+         IF p = "" \/ p = "." THEN NormParts(Tail(parts), acc)
+         ELSE IF p = ".." THEN NormParts(Tail(parts), IF Len(acc) = 0 THEN acc ELSE SubSeq(acc, 1, Len(acc) - 1))
+         ELSE NormParts(Tail(parts), Append(acc, p))
+NormAbs(path) == "/" \o Join(NormParts(Split(path, "/"), <<>>), "/")
 =============================================================================
